@@ -1817,7 +1817,7 @@ class Rule(metaclass=LogicalType):
             with context.enter(route=i) as item_context:
                 try:
                     item_context.transformer(item, cls.contains)
-                except (TypeError, ValueError):
+                except Exception:  # noqa: an item that cannot be converted is simply not contained
                     pass
                 else:
                     contains += 1
